@@ -5978,6 +5978,68 @@ func rulePropDwAny(prop string) ruleFn {
 				kept = true
 			}
 		}
+		// every-kind clause: the helper that puts the target into a given deleteWith (a callee of PrepareFact that is
+		// handed the target and whose result is written under `deleteWith`) hands the given value back unchanged only
+		// under an equality test with the target (it is in there already).  A `default: return given` for a value
+		// that is no list — `"deleteWith":"lease"` from a client that thinks one id needs no list — leaves the
+		// property without its target.
+		for _, pc := range pcs {
+			target := func(v ssa.Value) bool {
+				e, ok := v.(*ssa.Extract)
+				return ok && e.Tuple == ssa.Value(pc) && e.Index == 1
+			}
+			allInstrs(prep, func(in ssa.Instruction) {
+				c := callOf(in)
+				if c == nil || c.StaticCallee() == nil || len(c.StaticCallee().Blocks) == 0 || !w.IsRulio(c.StaticCallee()) {
+					return
+				}
+				h := c.StaticCallee()
+				ti := -1
+				for i, a := range c.Args {
+					if dependsOn(a, target) && i < len(h.Params) && types.Identical(h.Params[i].Type(), types.Typ[types.String]) {
+						ti = i
+					}
+				}
+				res, isVal := in.(ssa.Value)
+				if ti < 0 || !isVal {
+					return
+				}
+				written := false
+				allInstrs(prep, func(x ssa.Instruction) {
+					if mu, ok := x.(*ssa.MapUpdate); ok {
+						if k, isC := constKey(mu.Key); isC && k == "deleteWith" && dependsOn(mu.Value, func(v ssa.Value) bool { return v == res }) {
+							written = true
+						}
+					}
+				})
+				if !written {
+					return
+				}
+				tp := ssa.Value(h.Params[ti])
+				bad := ""
+				allInstrs(h, func(x ssa.Instruction) {
+					ret, ok := x.(*ssa.Return)
+					if !ok || len(ret.Results) != 1 {
+						return
+					}
+					v := resolveSpill(ret.Results[0])
+					if _, isParam := v.(*ssa.Parameter); !isParam || v == tp {
+						return
+					}
+					if !controlDependsOn(h, x, func(cv ssa.Value) bool {
+						b, isB := cv.(*ssa.BinOp)
+						return isB && b.Op == token.EQL && (dependsOn(b.X, func(z ssa.Value) bool { return z == tp }) || dependsOn(b.Y, func(z ssa.Value) bool { return z == tp }))
+					}) {
+						bad = w.PosOf(x)
+					}
+				})
+				if bad != "" {
+					r.violation("PROP-DW-ANY", key+" every-kind", bad, "the helper that puts a property's target into its deleteWith hands some given values back as they are (a value that is no list): `{\"id\":\"r1\",\"!note\":1,\"deleteWith\":\"lease\"}` is stored without its target and survives r1")
+				} else {
+					r.ok("PROP-DW-ANY", key+" every-kind", w.Pos(h.Pos()), "the given deleteWith comes back unchanged only when the target is in it")
+				}
+			})
+		}
 		if kept {
 			r.ok("PROP-DW-ANY", key+" given", w.Pos(prep.Pos()), "a property that names other ids in its deleteWith names its target, too")
 		} else {
